@@ -117,3 +117,27 @@ pub mod step {
 /// chordal analysis / decomposition wrappers on plain vectors (needs `sdp`)
 #[cfg(feature = "sdp")]
 pub use crate::solver::chordal::verif_hooks as chordal;
+
+/// C08: snapshot type returned by `DefaultKKTSystem::verif_c08_kkt_state`
+/// (the accessors themselves live next to the private fields they read:
+/// `DefaultKKTSystem::verif_c08_kkt_state`, `DefaultProblemData::verif_c08_*`).
+pub mod c08 {
+    #[derive(Debug, Clone)]
+    pub struct KktState<T> {
+        /// `KKT.nzval` of the unpermuted matrix held by `DirectLDLKKTSolver`
+        pub kkt_nzval: Vec<T>,
+        pub map_P: Vec<usize>,
+        pub map_A: Vec<usize>,
+        pub map_diag_full: Vec<usize>,
+        pub map_Hsblocks: Vec<usize>,
+        /// `workspace.triuA.nzval` of QDLDL (None for engines without their own copy)
+        pub ldl_nzval: Option<Vec<T>>,
+        pub AtoPAPt: Option<Vec<usize>>,
+    }
+}
+
+/// C19: the private settings sanitise / desanitise helpers of `json.rs`
+#[cfg(feature = "serde")]
+pub mod c19 {
+    pub use crate::solver::implementations::default::verif_hooks_json::*;
+}
